@@ -8,8 +8,8 @@ RL_PER_MS = 2700          # z3 resource units per millisecond on the reference m
 
 def check_one(hyps, goal, axioms, timeout_ms, want_model=False, seed=0):
     """the budget is z3's deterministic resource limit (rlimit), sized as `timeout_ms` on an idle reference machine; the wall-clock timeout is
-    only a safety net twenty times as long - so a verdict does not depend on how busy the machine is"""
-    s = Solver(); s.set('rlimit', int(timeout_ms * RL_PER_MS)); s.set('timeout', int(timeout_ms * 20))
+    only a safety net five times as long - so a verdict does not depend on how busy the machine is"""
+    s = Solver(); s.set('rlimit', int(timeout_ms * RL_PER_MS)); s.set('timeout', int(timeout_ms * 5))
     if seed: s.set('random_seed', seed)
     s.add(*axioms); s.add(*hyps); s.add(Not(goal))
     t0 = time.time()
@@ -41,6 +41,7 @@ def cvc5_check(solver, timeout_s=10, strings=False):
 def discharge(obs, axioms, timeout_ms=10000, shard=None, use_cvc5=True, cover=False, retries=1):
     """obs: list of (name, hyps, goal, detail).  Returns {name: {'paths', 'proved', 'status', 'backend', 'secs', 'detail'}}"""
     agg = {}
+    lost_s = 0.0          # wall time already spent on queries that stayed unknown: once a unit has clearly lost obligations, the rest gets the short attempt only
     for i, (name, hyps, goal, detail) in enumerate(obs):
         a = agg.setdefault(name, {'paths': 0, 'proved': 0, 'status': 'proved', 'backends': {}, 'secs': 0.0, 'detail': '', 'skipped': 0})
         a['paths'] += 1
@@ -63,17 +64,18 @@ def discharge(obs, axioms, timeout_ms=10000, shard=None, use_cvc5=True, cover=Fa
         r, be, dt, info, solver = check_one(hyps, goal, axioms, max(2000, timeout_ms // 5), want_model=True)
         a['secs'] += dt
         for attempt in range(1, retries + 2):
-            if r != 'unknown': break
+            if r != 'unknown' or lost_s > 12 * timeout_ms / 1000: break
             r, be, dt, info, solver = check_one(hyps, goal, axioms, timeout_ms * (1 if attempt == 1 else 2 if attempt == 2 else 4), want_model=True, seed=attempt * 7919)
             a['secs'] += dt
             a['retries'] = a.get('retries', 0) + 1
-        if r == 'unknown' and use_cvc5:
+        if r == 'unknown' and use_cvc5 and lost_s <= 12 * timeout_ms / 1000:
             r2 = cvc5_check(solver, timeout_s=max(5, timeout_ms // 2000))
             if r2 == 'unsat': r, be = 'unsat', 'cvc5'
             elif r2 == 'sat': r, be, info = 'sat', 'cvc5', 'cvc5: sat'
         if r == 'unsat':
             a['proved'] += 1; a['backends'][be] = a['backends'].get(be, 0) + 1
         else:
+            lost_s += a['secs']
             a['status'] = 'failed'
             a['detail'] = f'{r} ({be}) on path {i} [{detail}]: {info}'
     return agg
